@@ -5,7 +5,7 @@ non-ignored edges of the same size is searched exhaustively and checked (anticha
 passed together with the synthetic edges) must equal it; k-cover models are solved exactly for k >= width."""
 import itertools
 import networkx as nx
-import common, gen, gen2, zoo, props, oracles, vcheck
+import common, gen, gen2, zoo, props, oracles, vcheck, voracle
 
 LEVEL = "proof"
 EXPLANATION = ("Props/C09.v: weak duality (any cover of a demand has at least as many routes as any set of pairwise incompatible "
@@ -105,6 +105,17 @@ def check_instance(ctx, info, cyclic, strict=False):
         ctx.count("E2_cover_certificate", "with_constraints(lower bound only)")
         if anti is not None and len(routes) < len(anti):
             ctx.report(f"{name}: cover of {len(routes)} routes but {len(anti)} pairwise incompatible edges exist", rep)
+        if not cyclic and not node:
+            # with constraints: the optimum decided by the verified exhaustive oracle (CoverOracle.min_cover_correct)
+            lengths = None; frac = info.get("coverage", 1.0)
+            if "coverage_length" in info:
+                lengths = {e: G.edges[e].get("len", 1) for e in G.edges()}; frac = info["coverage_length"]
+            vk = voracle.min_cover(ctx, G, ignore=info["ignore"], starts=info["starts"], ends=info["ends"], cons=info["cons"],
+                                   coverage=frac, lengths=lengths, kmax=max(5, len(routes)))
+            if vk != "too-large":
+                ctx.count("E2_cover_certificate", "with_constraints_decided_by_verified_oracle")
+                if vk != len(routes):
+                    ctx.report(f"{name} returned {len(routes)} paths; the minimum cover realising the constraints has {vk} (verified exhaustive oracle)", rep)
         return
     if anti is None:
         ctx.count("E2_cover_certificate", "no_certificate_search"); return
